@@ -532,4 +532,172 @@ def aggKeyOk (env : Env) (s : Store) (k v : Bytes) : Bool :=
 def aggKeysB (env : Env) (s : Store) : Bool := sortedB s && s.all (fun kv => aggKeyOk env s kv.1 kv.2)
 def AggKeys (env : Env) (s : Store) : Prop := aggKeysB env s = true
 
+
+/-! ## x/aggregate genesis as a whole: token-pair store + the `aggregate/` parameter subspace -/
+
+structure AggState where
+  a : Store          -- the aggregate KV store (three index prefixes)
+  p : Store          -- the module's parameter subspace
+  deriving DecidableEq
+
+structure AggGenesis where
+  pairs : List Bytes
+  params : List (Bytes × Bytes)
+  deriving DecidableEq
+
+/-- `aggregate.ExportGenesis`: `GetParams` + `GetAllTokenPairs` -/
+def exportAggregate (st : AggState) : AggGenesis := { pairs := exportAgg st.a, params := exportParams st.p }
+/-- `aggregate.InitGenesis`: `SetParams`, then for every pair `SetTokenPair`, `SetDenomsMap` (EVERY denomination), `SetERC20Map` -/
+def initAggregate (env : Env) (g : AggGenesis) : AggState := { a := initAgg env g.pairs, p := initParams g.params }
+/-- `aggregatetypes.GenesisState.Validate` (`Params.Validate` is `nil`) -/
+def validateAggregate (env : Env) (g : AggGenesis) : Bool := validateAgg env g.pairs
+
+/-- what RegisterCoin / RegisterERC20 guarantee about every stored pair: it validates and lists at least one denomination -/
+def aggWellFormedB (env : Env) (s : Store) : Bool :=
+  (exportAgg s).all (fun b => env.validPair b && !(env.pairDenoms b).isEmpty)
+def AggWellFormed (env : Env) (s : Store) : Prop := aggWellFormedB env s = true
+
+/-- the seeded variant of InitGenesis that indexes only `Denoms[0]` -/
+def aggPairWritesHeadOnly (env : Env) (blob : Bytes) : List (Bytes × Bytes) :=
+  (aggPairKey (env.pairId blob), blob)
+  :: (((env.pairDenoms blob).take 1).map fun d => (aggDenomKey d, env.pairId blob))
+  ++ [(aggErc20Key (env.pairErc20 blob), env.pairId blob)]
+def initAggHeadOnly (env : Env) (pairs : List Bytes) : Store := setAll [] (pairs.flatMap (aggPairWritesHeadOnly env))
+
+/-! ## x/rvesting InitGenesis with `From` funding (bank balances as a function address → denomination → amount) -/
+
+abbrev Balances := Bytes → Bytes → Nat
+
+structure RvGenesis where
+  params : List (Bytes × Bytes)
+  sender : Bytes                       -- "" in every export
+  fromValid : Bool                   -- `sdk.AccAddressFromBech32(From)` succeeds (external)
+  initReward : List (Bytes × Nat)    -- sdk.Coins: sorted, distinct denominations
+
+structure RvState where
+  p : Store
+  bal : Balances
+
+/-- `bank.SendCoins`: every coin must be covered by the sender's balance -/
+def canPay (bal : Balances) (sender : Bytes) (coins : List (Bytes × Nat)) : Bool :=
+  coins.all (fun c => c.2 ≤ bal sender c.1)
+
+def amountOf (coins : List (Bytes × Nat)) (d : Bytes) : Nat :=
+  (coins.filter (fun c => c.1 = d)).foldl (fun a c => a + c.2) 0
+
+def sendCoins (bal : Balances) (sender to : Bytes) (coins : List (Bytes × Nat)) : Balances :=
+  fun a d =>
+    if sender = to then bal a d
+    else if a = sender then bal a d - amountOf coins d
+    else if a = to then bal a d + amountOf coins d
+    else bal a d
+
+/-- `rvesting Keeper.InitGenesis`: SetParams; if `From` is set, parse it (panic on failure) and move `InitReward` from it to
+the module account (panic if it cannot pay) -/
+def initRvesting (pool : Bytes) (bal : Balances) (g : RvGenesis) : Outcome RvState :=
+  let p := initParams g.params
+  if g.sender = [] then .ok { p := p, bal := bal }
+  else if !g.fromValid then .panic "bech32"
+  else if !canPay bal g.sender g.initReward then .panic "insufficient funds"
+  else .ok { p := p, bal := sendCoins bal g.sender pool g.initReward }
+
+/-- `rvesting Keeper.ExportGenesis`: parameters only (`From` = "", `InitReward` = empty) -/
+def exportRvesting (p : Store) : RvGenesis := { params := exportParams p, sender := [], fromValid := false, initReward := [] }
+
+/-! ## the modelled keeper operations as a datatype (for reachability) -/
+
+/-- `clearClientStore` of the repaired `ToggleClient`: every entry under "clients/<chain>/" is deleted -/
+def clearClient (s : Store) (chain : Bytes) : Store := s.filter (fun kv => !(clientPrefix chain).isPrefixOf kv.1)
+
+/-- does the `Initialize` metadata belong to the client type? -/
+def InitMeta.tyOk : InitMeta → Ty → Bool
+  | .tm _, .tm => true
+  | .bsc _ _, .bsc => true
+  | .eth _ _ _, .eth => true
+  | .tss, .tss => true
+  | _, _ => false
+
+def tyOfChain (s : Store) (chain : Bytes) : Option Ty := (get s (clientKey chain kClientState)).bind clientTy
+
+def noSlash (b : Bytes) : Bool := !b.contains slash
+
+/-- keeper operations with the guards the handlers / keepers have (an operation whose guard fails leaves the store unchanged,
+as the failing transaction is reverted) -/
+inductive KOp where
+  | chainName (n : Bytes)
+  | relayer (blob : Bytes)
+  | create (chain cblob consblob : Bytes) (h : Height) (m : InitMeta)      -- CreateClient: no client for the chain yet
+  | toggle (chain cblob consblob : Bytes) (h : Height) (m : InitMeta)      -- ToggleClient: clears the client store first
+  | clientSameType (chain blob : Bytes)                                    -- UpdateClient / UpgradeClient: same client type
+  | cons (chain : Bytes) (h : Height) (blob : Bytes)
+  | tmMeta (chain : Bytes) (h : Height) (t : UInt64)
+  | tmPrune (chain : Bytes) (h : Height)
+  | bscSigner (chain : Bytes) (h : Height) (v : Bytes)
+  | bscDelSigner (chain : Bytes) (h : Height)
+  | bscPending (chain blob : Bytes)
+  | ethIndex (chain hash : Bytes) (h : UInt64) (blob : Bytes)
+  | ethRoot (chain root : Bytes) (h : UInt64) (hash : Bytes)
+  | commit (src dst : Bytes) (q : UInt64) (d : Bytes)
+  | delCommit (src dst : Bytes) (q : UInt64)
+  | ack (src dst : Bytes) (q : UInt64) (d : Bytes)
+  | receipt (src dst : Bytes) (q : UInt64)
+  | nextSeq (src dst : Bytes) (q : UInt64)
+
+def createGuard (chain cblob consblob : Bytes) (m : InitMeta) : Bool :=
+  noSlash chain &&
+  (match clientTy cblob with
+   | some ty => m.tyOk ty && (ty == .tss || (consTy consblob).isSome)
+   | none => false)
+
+def applyOp (s : Store) : KOp → Store
+  | .chainName n => setChainName s n
+  | .relayer blob => registerRelayer s blob
+  | .create chain cb sb h m =>
+    if createGuard chain cb sb m && (get s (clientKey chain kClientState)).isNone then createClient s chain cb sb h m else s
+  | .toggle chain cb sb h m =>
+    if createGuard chain cb sb m && (get s (clientKey chain kClientState)).isSome
+    then createClient (clearClient s chain) chain cb sb h m else s
+  | .clientSameType chain blob =>
+    if noSlash chain && (clientTy blob).isSome && tyOfChain s chain == clientTy blob then setClientState s chain blob else s
+  | .cons chain h blob => if noSlash chain && (consTy blob).isSome then setConsensusState s chain h blob else s
+  | .tmMeta chain h t => if noSlash chain && tyOfChain s chain == some .tm then tmSetMeta s chain h t else s
+  | .tmPrune chain h => if noSlash chain then tmPrune s chain h else s
+  | .bscSigner chain h v => if noSlash chain && tyOfChain s chain == some .bsc then bscSetSigner s chain h v else s
+  | .bscDelSigner chain h => if noSlash chain then bscDelSigner s chain h else s
+  | .bscPending chain blob => if noSlash chain && tyOfChain s chain == some .bsc then bscSetPending s chain blob else s
+  | .ethIndex chain hash h blob => if noSlash chain && tyOfChain s chain == some .eth then ethSetIndex s chain hash h blob else s
+  | .ethRoot chain root h hash => if noSlash chain && tyOfChain s chain == some .eth then ethSetRoot s chain root h hash else s
+  | .commit src dst q d => if noSlash src && noSlash dst then setCommitment s src dst q d else s
+  | .delCommit src dst q => if noSlash src && noSlash dst then delCommitment s src dst q else s
+  | .ack src dst q d => if noSlash src && noSlash dst then setAck s src dst q d else s
+  | .receipt src dst q => if noSlash src && noSlash dst then setReceipt s src dst q else s
+  | .nextSeq src dst q => if noSlash src && noSlash dst then setNextSeq s src dst q else s
+
+/-- BSC `Initialize` parses the validators of the epoch header; the repaired `ParseValidators` rejects an empty set
+(fix C13-bsc-empty-validator-set) -/
+def InitMeta.initOk : InitMeta → Bool
+  | .bsc _ pending => !pending.isEmpty
+  | _ => true
+
+/-- a create-client proposal: `ClientState.Validate()` (external, incl. the repaired "height 0-0 rejected" of BSC / ETH),
+then `Keeper.CreateClient`; a failing `Initialize` reverts the transaction -/
+def createClientO (s : Store) (chain cblob : Bytes) (cvalid : Bool) (consblob : Bytes) (h : Height) (m : InitMeta) : Outcome Store :=
+  if !cvalid then .err "client state invalid"
+  else if !m.initOk then .err "initialize"
+  else .ok (createClient s chain cblob consblob h m)
+
+/-- a toggle-client proposal: the client must exist and be of ANOTHER type; the repaired keeper clears the client store first -/
+def toggleClientO (s : Store) (chain cblob : Bytes) (cvalid : Bool) (consblob : Bytes) (h : Height) (m : InitMeta) : Outcome Store :=
+  if !cvalid then .err "client state invalid"
+  else
+    match get s (clientKey chain kClientState) with
+    | none => .err "client not found"
+    | some cv =>
+      if clientTy cv == clientTy cblob then .err "same type"
+      else if !m.initOk then .err "initialize"
+      else .ok (createClient (clearClient s chain) chain cblob consblob h m)
+
+/-- the xibc store right after `InitGenesis` of a fresh chain: only the native chain name -/
+def freshStore (n : Bytes) : Store := setChainName [] n
+
 end TM.Genesis
